@@ -607,6 +607,39 @@ function runDigestSequence(ops) {
   return { got, want, model, tapComplete, bytes: all.length, payload, insensitive };
 }
 
+// Unique decodability of whatever encoding the writer uses, without assuming which: the bytes the writer produces for a
+// tail of writes (seen through the tap) are put, as text, behind a prefix P inside ONE string; that single write and the
+// sequence [write P, then the tail] are different inputs and must have different digests.  (A length prefix that loses
+// bits makes the two byte streams identical at the lengths where the lost bits matter.)
+function tapStream(ops) {
+  const w = new HASHMOD.Hash256Writer();
+  const chunks = [];
+  const orig = w.updateBytes;
+  if (typeof orig !== "function") return null;
+  w.updateBytes = function (data) { chunks.push(Buffer.from(data)); return orig.call(this, data); };
+  for (const op of ops) applyDigestOp(w, op);
+  const digest = w.digestHex();
+  const all = Buffer.concat(chunks);
+  if (typeof w.bytesHashed !== "number" || w.bytesHashed !== all.length) return null;
+  return { bytes: all, digest };
+}
+function digestOf(ops) {
+  const w = new HASHMOD.Hash256Writer();
+  for (const op of ops) applyDigestOp(w, op);
+  return w.digestHex();
+}
+function runConfusable(prefix, tail) {
+  const t = tapStream(tail);
+  if (t == null) return { skipped: "byte stream not observable" };
+  let text;
+  try { text = new TextDecoder("utf-8", { fatal: true }).decode(t.bytes); } catch { return { skipped: "tail bytes are not text" }; }
+  if (Buffer.compare(Buffer.from(text, "utf8"), t.bytes) !== 0) return { skipped: "tail bytes do not survive a text round trip" };
+  const one = [{ o: "str", v: prefix + text }];
+  const many = [{ o: "str", v: prefix }, ...tail];
+  const d1 = digestOf(one), d2 = digestOf(many);
+  return { same: d1 === d2, digest: d1, singleLength: Buffer.byteLength(prefix + text, "utf8"), tailBytes: t.bytes.length };
+}
+
 // ---- queries ----
 function getParser(env, q) {
   if (q.b != null) {
@@ -853,6 +886,8 @@ function runQuery(env, q) {
     }
     case "digest":
       try { return runDigestSequence(q.ops); } catch (e) { return { threw: thrown(e) }; }
+    case "confusable":
+      try { return runConfusable(q.prefix, q.tail); } catch (e) { return { threw: thrown(e) }; }
     case "bHistory":
       try { return runBHistory(q.ops, q.values.map(revive)); } catch (e) { return { threw: thrown(e) }; }
     default:
